@@ -1332,6 +1332,9 @@ func (h *Handle) Readdir(offset uint64, count uint32) (p9.Dirents, error) {
 	}
 	sort.Strings(names)
 	var out p9.Dirents
+	if offset > uint64(len(names)) {
+		offset = uint64(len(names)) // absurd offsets (2^63 ...) list nothing
+	}
 	for i := int(offset); i < len(names); i++ {
 		ch := n.Children[names[i]]
 		out = append(out, p9.Dirent{QID: ch.QID(), Offset: uint64(i + 1), Type: ch.QID().Type, Name: names[i]})
